@@ -1,1 +1,1065 @@
-//! Shared helpers for the graph/search correspondence streams (C01 C02 C04 C05 C10 C13): owned by the C01 work item.
+//! Shared helpers for the graph-search correspondence streams (owned by the C01 work item; used by
+//! C02 C04 C05 C10 C13).  Everything here drives the REAL routee_compass_core search code; the Coq
+//! counterpart is coq/Model/SearchRun.v (module SR) on top of coq/Model/Search.v.
+//!
+//! A *world* is a complete, table-driven search configuration: a graph given as an edge list (edge id =
+//! position), one state feature ("distance", initial value `init`) and
+//!   * TraversalModel  : traversing edge e adds `cost[e]` to the state; edges in `terr` fail,
+//!   * heuristic       : estimate_traversal((src,dst)) adds `h[src]` to the state,
+//!   * AccessModel     : the turn (prev,next) adds `turn[(prev,next)]` to the state (nothing when absent),
+//!   * CostModel       : weight 1, VehicleCostRate::Raw, no network rates, Sum aggregation, so the
+//!                       edge's total cost is the state delta (clamped to 1e-10 when <= 0),
+//!   * FrontierModel   : edges in `forbid` and turns in `fturn` are refused, edges in `ferr` fail,
+//!   * TerminationModel: `term` (Unlimited = IterationsLimit{u64::MAX}).
+//! NOTE (measured, mirrored by the model): every non-first edge of a path carries access cost 1e-10
+//! (CostModel::access_cost clamps the zero delta of NoAccess) and traversal cost `total - 1e-10`.
+//!
+//! Public API
+//!   types      World, Term, Query, Alg, Dir, Orient, Outcome, Branch, Hop, NumKind, CostFamily, HKind
+//!   build      build_graph(n, &edges, &dist) -> Graph          (adj/rev filled as edge_loader.rs does)
+//!              build_instance(&World) -> SearchInstance         (all real core types)
+//!              search_algorithm(&Alg) -> SearchAlgorithm,  query_json(&Query)
+//!   run        run_query(&World,&Query) -> Outcome              (panics caught -> status "Panic")
+//!              run_query_watchdog(&World,&Query,ms) -> Outcome  (no answer within ms -> status "Hang")
+//!              outcome_of(Result<SearchAlgorithmResult,SearchError>) -> Outcome,  classify_error(&SearchError)
+//!   print      show_outcome(&Outcome, detail)   detail 0: status, iterations, (vertex,parent,edge) triples
+//!              sorted by vertex, route edge ids; detail 1: plus access cost, traversal cost, state as
+//!              exact floats.  show_triples, show_route_edges, show_labels (per-vertex state = label)
+//!              -- identical to SR.show_outcome / SR.line_M in Coq.
+//!   emit       coq_world, coq_query, coq_outcome (Gallina terms of SR.world / SR.query / SR.outcome),
+//!              coq_num (float literal or exact rational), term_M / term_S (complete case terms),
+//!              HEADER (Require lines for the case files), default_fuel(&World)
+//!   json       world_to_json/world_from_json, query_to_json/query_from_json  (floats as bit patterns)
+//!   generate   gen_graph(rng) (DESIGN.md Appendix B), gen_costs(rng,m,family), gen_world(rng,family),
+//!              gen_frontier(rng,&mut World), gen_heuristic(rng,&mut World,dir,target,kind),
+//!              true_dist(&World,dir,target), reachable(&World,dir,start), gen_query(rng,&World), boundary_cases() (C01/C05 families),
+//!              absorption_cases()
+use crate::*;
+use routee_compass_core::algorithm::search::direction::Direction;
+use routee_compass_core::algorithm::search::search_algorithm::SearchAlgorithm;
+use routee_compass_core::algorithm::search::search_algorithm_result::SearchAlgorithmResult;
+use routee_compass_core::algorithm::search::search_error::SearchError;
+use routee_compass_core::algorithm::search::search_instance::SearchInstance;
+use routee_compass_core::model::access::access_model::AccessModel;
+use routee_compass_core::model::access::access_model_error::AccessModelError;
+use routee_compass_core::model::cost::cost_aggregation::CostAggregation;
+use routee_compass_core::model::cost::cost_model::CostModel;
+use routee_compass_core::model::cost::vehicle::vehicle_cost_rate::VehicleCostRate;
+use routee_compass_core::model::frontier::frontier_model::FrontierModel;
+use routee_compass_core::model::frontier::frontier_model_error::FrontierModelError;
+use routee_compass_core::model::network::{Edge, EdgeId, Graph, Vertex, VertexId};
+use routee_compass_core::model::state::state_feature::StateFeature;
+use routee_compass_core::model::state::state_model::StateModel;
+use routee_compass_core::model::termination::termination_model::TerminationModel;
+use routee_compass_core::model::termination::termination_model_error::TerminationModelError;
+use routee_compass_core::model::traversal::state::state_variable::StateVar;
+use routee_compass_core::model::traversal::traversal_model::TraversalModel;
+use routee_compass_core::model::traversal::traversal_model_error::TraversalModelError;
+use routee_compass_core::model::unit::as_f64::AsF64;
+use routee_compass_core::model::unit::{Cost, Distance, DistanceUnit};
+use routee_compass_core::util::compact_ordered_hash_map::CompactOrderedHashMap;
+use serde_json::{json, Value};
+use std::collections::{HashMap, HashSet};
+use std::sync::Arc;
+
+pub const FEATURE: &str = "distance";
+
+// ------------------------------------------------------------------------------------------ types
+
+#[derive(Clone, Debug, PartialEq)]
+pub enum Term {
+    Unlimited,
+    Iter(u64),
+    Size(usize),
+    Combined(Vec<Term>),
+}
+
+#[derive(Clone, Debug)]
+pub struct World {
+    pub n: usize,
+    /// edge id = position; (src, dst)
+    pub edges: Vec<(usize, usize)>,
+    /// per edge: state increment = edge cost
+    pub cost: Vec<f64>,
+    /// per vertex: state increment of the estimate (the heuristic table); shorter = 0
+    pub h: Vec<f64>,
+    /// access model: (prev edge, next edge, state increment)
+    pub turn: Vec<(usize, usize, f64)>,
+    pub forbid: Vec<usize>,
+    pub fturn: Vec<(usize, usize)>,
+    pub ferr: Vec<usize>,
+    pub terr: Vec<usize>,
+    pub term: Term,
+    pub init: f64,
+}
+impl World {
+    pub fn new(n: usize, edges: Vec<(usize, usize)>, cost: Vec<f64>) -> World {
+        assert_eq!(edges.len(), cost.len());
+        World { n, edges, cost, h: vec![], turn: vec![], forbid: vec![], fturn: vec![], ferr: vec![], terr: vec![], term: Term::Unlimited, init: 0.0 }
+    }
+}
+
+#[derive(Clone, Copy, Debug, PartialEq, Eq)]
+pub enum Dir {
+    Forward,
+    Reverse,
+}
+#[derive(Clone, Copy, Debug, PartialEq)]
+pub enum Alg {
+    Dijkstra,
+    /// SearchAlgorithm::AStarAlgorithm { weight_factor }
+    AStar(Option<f64>),
+}
+#[derive(Clone, Copy, Debug, PartialEq, Eq)]
+pub enum Orient {
+    Vertex,
+    Edge,
+}
+#[derive(Clone, Debug)]
+pub struct Query {
+    pub alg: Alg,
+    pub dir: Dir,
+    pub orient: Orient,
+    /// vertex id or edge id, by `orient`
+    pub source: usize,
+    pub target: Option<usize>,
+    /// "weight_factor" field of the query JSON (overrides the algorithm's, also for Dijkstra)
+    pub query_wf: Option<f64>,
+}
+
+#[derive(Clone, Debug)]
+pub struct Branch {
+    pub v: usize,
+    pub parent: usize,
+    pub edge: usize,
+    pub access: f64,
+    pub trav: f64,
+    pub state: f64,
+}
+#[derive(Clone, Debug)]
+pub struct Hop {
+    pub edge: usize,
+    pub access: f64,
+    pub trav: f64,
+    pub state: f64,
+}
+/// canonical result of one search: status in {Ok, nopath, terminated, err:<class>, Panic, Hang}
+#[derive(Clone, Debug)]
+pub struct Outcome {
+    pub status: String,
+    pub iters: u64,
+    /// every tree sorted by vertex id
+    pub trees: Vec<Vec<Branch>>,
+    pub routes: Vec<Vec<Hop>>,
+}
+impl Outcome {
+    pub fn status_only(s: &str) -> Outcome {
+        Outcome { status: s.to_string(), iters: 0, trees: vec![], routes: vec![] }
+    }
+    pub fn is_ok(&self) -> bool {
+        self.status == "Ok"
+    }
+}
+
+// ------------------------------------------------------------------------------- table-driven models
+
+pub struct TableTraversal {
+    pub cost: Vec<f64>,
+    pub h: Vec<f64>,
+    pub terr: HashSet<usize>,
+}
+impl TraversalModel for TableTraversal {
+    fn state_features(&self) -> Vec<(String, StateFeature)> {
+        vec![]
+    }
+    fn traverse_edge(&self, trajectory: (&Vertex, &Edge, &Vertex), state: &mut Vec<StateVar>, _sm: &StateModel) -> Result<(), TraversalModelError> {
+        let (_, e, _) = trajectory;
+        if self.terr.contains(&e.edge_id.0) {
+            return Err(TraversalModelError::TraversalModelFailure(format!("table: edge {} fails", e.edge_id.0)));
+        }
+        let c = self.cost.get(e.edge_id.0).copied().unwrap_or(0.0);
+        state[0] = state[0] + StateVar(c);
+        Ok(())
+    }
+    fn estimate_traversal(&self, od: (&Vertex, &Vertex), state: &mut Vec<StateVar>, _sm: &StateModel) -> Result<(), TraversalModelError> {
+        let (src, _) = od;
+        let hv = self.h.get(src.vertex_id.0).copied().unwrap_or(0.0);
+        state[0] = state[0] + StateVar(hv);
+        Ok(())
+    }
+}
+
+pub struct TableAccess {
+    pub turn: HashMap<(usize, usize), f64>,
+}
+impl AccessModel for TableAccess {
+    fn state_features(&self) -> Vec<(String, StateFeature)> {
+        vec![]
+    }
+    fn access_edge(&self, traversal: (&Vertex, &Edge, &Vertex, &Edge, &Vertex), state: &mut Vec<StateVar>, _sm: &StateModel) -> Result<(), AccessModelError> {
+        let (_, e1, _, e2, _) = traversal;
+        if let Some(c) = self.turn.get(&(e1.edge_id.0, e2.edge_id.0)) {
+            state[0] = state[0] + StateVar(*c);
+        }
+        Ok(())
+    }
+}
+
+pub struct TableFrontier {
+    pub forbid: HashSet<usize>,
+    pub fturn: HashSet<(usize, usize)>,
+    pub ferr: HashSet<usize>,
+}
+impl FrontierModel for TableFrontier {
+    fn valid_frontier(&self, edge: &Edge, _state: &[StateVar], previous_edge: Option<&Edge>, _sm: &StateModel) -> Result<bool, FrontierModelError> {
+        let e = edge.edge_id.0;
+        if self.ferr.contains(&e) {
+            return Err(FrontierModelError::FrontierModelError(format!("table: edge {} fails", e)));
+        }
+        if self.forbid.contains(&e) {
+            return Ok(false);
+        }
+        if let Some(p) = previous_edge {
+            if self.fturn.contains(&(p.edge_id.0, e)) {
+                return Ok(false);
+            }
+        }
+        Ok(true)
+    }
+}
+
+// ------------------------------------------------------------------------------------------ build
+
+/// a real `Graph`: `adj`/`rev` filled in edge order exactly as edge_loader.rs does
+pub fn build_graph(n: usize, edges: &[(usize, usize)], dist: &[f64]) -> Graph {
+    let vertices: Vec<Vertex> = (0..n).map(|i| Vertex::new(i, 0.0, 0.0)).collect();
+    let es: Vec<Edge> = edges.iter().enumerate().map(|(i, (s, d))| Edge::new(i, *s, *d, dist.get(i).copied().unwrap_or(1.0))).collect();
+    let mut adj = vec![CompactOrderedHashMap::empty(); n];
+    let mut rev = vec![CompactOrderedHashMap::empty(); n];
+    for e in &es {
+        if let Some(m) = adj.get_mut(e.src_vertex_id.0) {
+            m.insert(e.edge_id, e.dst_vertex_id);
+        }
+        if let Some(m) = rev.get_mut(e.dst_vertex_id.0) {
+            m.insert(e.edge_id, e.src_vertex_id);
+        }
+    }
+    Graph { adj: adj.into_boxed_slice(), rev: rev.into_boxed_slice(), edges: es.into_boxed_slice(), vertices: vertices.into_boxed_slice() }
+}
+
+pub fn termination_model(t: &Term) -> TerminationModel {
+    match t {
+        Term::Unlimited => TerminationModel::IterationsLimit { limit: u64::MAX },
+        Term::Iter(l) => TerminationModel::IterationsLimit { limit: *l },
+        Term::Size(l) => TerminationModel::SolutionSizeLimit { limit: *l },
+        Term::Combined(v) => TerminationModel::Combined { models: v.iter().map(termination_model).collect() },
+    }
+}
+
+pub fn build_instance(w: &World) -> SearchInstance {
+    let state_model = Arc::new(
+        StateModel::empty()
+            .extend(vec![(String::from(FEATURE), StateFeature::Distance { distance_unit: DistanceUnit::Meters, initial: Distance::new(w.init) })])
+            .unwrap(),
+    );
+    let cost_model = CostModel::new(
+        Arc::new(HashMap::from([(String::from(FEATURE), 1.0)])),
+        Arc::new(HashMap::from([(String::from(FEATURE), VehicleCostRate::Raw)])),
+        Arc::new(HashMap::new()),
+        CostAggregation::Sum,
+        state_model.clone(),
+    )
+    .unwrap();
+    SearchInstance {
+        directed_graph: Arc::new(build_graph(w.n, &w.edges, &w.cost)),
+        state_model,
+        traversal_model: Arc::new(TableTraversal { cost: w.cost.clone(), h: w.h.clone(), terr: w.terr.iter().copied().collect() }),
+        access_model: Arc::new(TableAccess { turn: w.turn.iter().map(|(a, b, c)| ((*a, *b), *c)).collect() }),
+        cost_model: Arc::new(cost_model),
+        frontier_model: Arc::new(TableFrontier { forbid: w.forbid.iter().copied().collect(), fturn: w.fturn.iter().copied().collect(), ferr: w.ferr.iter().copied().collect() }),
+        termination_model: Arc::new(termination_model(&w.term)),
+    }
+}
+
+pub fn search_algorithm(a: &Alg) -> SearchAlgorithm {
+    match a {
+        Alg::Dijkstra => SearchAlgorithm::Dijkstra,
+        Alg::AStar(w) => SearchAlgorithm::AStarAlgorithm { weight_factor: w.map(Cost::new) },
+    }
+}
+pub fn direction(d: Dir) -> Direction {
+    match d {
+        Dir::Forward => Direction::Forward,
+        Dir::Reverse => Direction::Reverse,
+    }
+}
+pub fn query_json(q: &Query) -> Value {
+    match q.query_wf {
+        None => json!({}),
+        Some(w) => json!({ "weight_factor": w }),
+    }
+}
+
+// -------------------------------------------------------------------------------------------- run
+
+pub fn classify_error(e: &SearchError) -> String {
+    match e {
+        SearchError::NoPathExistsBetweenVertices(_, _) | SearchError::NoPathExistsBetweenEdges(_, _) => "nopath".into(),
+        SearchError::QueryTerminated(_) => "terminated".into(),
+        SearchError::TerminationModelFailure { source } => match source {
+            TerminationModelError::QueryTerminated(_) => "terminated".into(),
+            TerminationModelError::RuntimeError(_) => "err:termination".into(),
+        },
+        SearchError::NetworkFailure { .. } => "err:graph".into(),
+        SearchError::FrontierModelFailure { .. } => "err:frontier".into(),
+        SearchError::TraversalModelFailure { .. } => "err:traversal".into(),
+        SearchError::AccessModelFailure { .. } => "err:access".into(),
+        SearchError::StateFailure { .. } => "err:state".into(),
+        SearchError::CostFailure { .. } => "err:cost".into(),
+        SearchError::BuildError(_) => "err:build".into(),
+        SearchError::InternalError(_) => "err:internal".into(),
+        SearchError::ReadOnlyPoisonError(_) => "err:poison".into(),
+    }
+}
+
+fn st0(s: &[StateVar]) -> f64 {
+    s.first().map(|x| x.0).unwrap_or(f64::NAN)
+}
+
+pub fn outcome_of(r: Result<SearchAlgorithmResult, SearchError>) -> Outcome {
+    match r {
+        Err(e) => Outcome::status_only(&classify_error(&e)),
+        Ok(res) => {
+            let trees = res
+                .trees
+                .iter()
+                .map(|t| {
+                    let mut v: Vec<Branch> = t
+                        .iter()
+                        .map(|(k, b)| Branch {
+                            v: k.0,
+                            parent: b.terminal_vertex.0,
+                            edge: b.edge_traversal.edge_id.0,
+                            access: b.edge_traversal.access_cost.as_f64(),
+                            trav: b.edge_traversal.traversal_cost.as_f64(),
+                            state: st0(&b.edge_traversal.result_state),
+                        })
+                        .collect();
+                    v.sort_by_key(|b| b.v);
+                    v
+                })
+                .collect();
+            let routes = res
+                .routes
+                .iter()
+                .map(|r| r.iter().map(|et| Hop { edge: et.edge_id.0, access: et.access_cost.as_f64(), trav: et.traversal_cost.as_f64(), state: st0(&et.result_state) }).collect())
+                .collect();
+            Outcome { status: "Ok".into(), iters: res.iterations, trees, routes }
+        }
+    }
+}
+
+/// run one query on the real code: SearchAlgorithm::{Dijkstra, AStarAlgorithm}.run_vertex_oriented / run_edge_oriented
+pub fn run_on_instance(si: &SearchInstance, q: &Query) -> Outcome {
+    let alg = search_algorithm(&q.alg);
+    let qj = query_json(q);
+    let d = direction(q.dir);
+    let r = match q.orient {
+        Orient::Vertex => alg.run_vertex_oriented(VertexId(q.source), q.target.map(VertexId), &qj, &d, si),
+        Orient::Edge => alg.run_edge_oriented(EdgeId(q.source), q.target.map(EdgeId), &qj, &d, si),
+    };
+    outcome_of(r)
+}
+
+pub fn run_query(w: &World, q: &Query) -> Outcome {
+    let (w2, q2) = (w.clone(), q.clone());
+    match catch(move || {
+        let si = build_instance(&w2);
+        run_on_instance(&si, &q2)
+    }) {
+        Ok(o) => o,
+        Err(_) => Outcome::status_only("Panic"),
+    }
+}
+
+/// as `run_query`, in a helper thread: no answer within `ms` milliseconds => status "Hang" (the thread is
+/// abandoned and dies with the process)
+pub fn run_query_watchdog(w: &World, q: &Query, ms: u64) -> Outcome {
+    let (tx, rx) = std::sync::mpsc::channel();
+    let (w2, q2) = (w.clone(), q.clone());
+    std::thread::spawn(move || {
+        let o = run_query(&w2, &q2);
+        let _ = tx.send(o);
+    });
+    match rx.recv_timeout(std::time::Duration::from_millis(ms)) {
+        Ok(o) => o,
+        Err(_) => Outcome::status_only("Hang"),
+    }
+}
+
+// ------------------------------------------------------------------------------------------ print
+
+pub fn show_triples(t: &[Branch]) -> String {
+    show_list(t, |b| format!("({},{},{})", b.v, b.parent, b.edge))
+}
+pub fn show_route_edges(r: &[Hop]) -> String {
+    show_list(r, |h| h.edge.to_string())
+}
+/// per-vertex label = accumulated state of the tree entry (cost-so-far in exact arithmetic)
+pub fn show_labels(t: &[Branch]) -> String {
+    show_list(t, |b| format!("{}:{}", b.v, show_f64(b.state)))
+}
+fn show_branch(b: &Branch, detail: u8) -> String {
+    if detail == 0 {
+        format!("({},{},{})", b.v, b.parent, b.edge)
+    } else {
+        format!("({},{},{},{},{},{})", b.v, b.parent, b.edge, show_f64(b.access), show_f64(b.trav), show_f64(b.state))
+    }
+}
+fn show_hop(h: &Hop, detail: u8) -> String {
+    if detail == 0 {
+        h.edge.to_string()
+    } else {
+        format!("({},{},{},{})", h.edge, show_f64(h.access), show_f64(h.trav), show_f64(h.state))
+    }
+}
+/// identical to SR.show_outcome
+pub fn show_outcome(o: &Outcome, detail: u8) -> String {
+    if !o.is_ok() {
+        return o.status.clone();
+    }
+    format!(
+        "Ok it={} trees={} routes={}",
+        o.iters,
+        show_list(&o.trees, |t| show_list(t, |b| show_branch(b, detail))),
+        show_list(&o.routes, |r| show_list(r, |h| show_hop(h, detail)))
+    )
+}
+
+// ------------------------------------------------------------------------------------------- emit
+
+#[derive(Clone, Copy, Debug, PartialEq, Eq)]
+pub enum NumKind {
+    /// primitive binary64 (instance FN): bit-exact execution
+    F,
+    /// exact rationals (instance QN): the value of the double, exactly
+    Q,
+}
+impl NumKind {
+    pub fn inst(&self) -> &'static str {
+        match self {
+            NumKind::F => "FN",
+            NumKind::Q => "QN",
+        }
+    }
+}
+/// exact rational value of a finite double as a Coq term of type Q
+pub fn coq_q(x: f64) -> String {
+    assert!(x.is_finite());
+    if x == 0.0 {
+        return "(0 # 1)%Q".into();
+    }
+    let bits = x.to_bits();
+    let neg = (bits >> 63) == 1;
+    let e = ((bits >> 52) & 0x7ff) as i64;
+    let f = bits & ((1u64 << 52) - 1);
+    let (mut m, mut ex) = if e == 0 { (f as u128, -1074i64) } else { ((f | (1u64 << 52)) as u128, e - 1075) };
+    while m % 2 == 0 && ex < 0 {
+        m /= 2;
+        ex += 1;
+    }
+    let sign = if neg { "-" } else { "" };
+    if ex >= 0 {
+        format!("(({}{} * 2 ^ {})%Z # 1)%Q", sign, m, ex)
+    } else {
+        format!("(({}{})%Z # (2 ^ {})%positive)%Q", sign, m, -ex)
+    }
+}
+pub fn coq_num(x: f64, k: NumKind) -> String {
+    match k {
+        NumKind::F => coq_f64(x),
+        NumKind::Q => coq_q(x),
+    }
+}
+fn coq_pair(a: usize, b: usize) -> String {
+    format!("({}, {})", a, b)
+}
+pub fn coq_term(t: &Term) -> String {
+    match t {
+        Term::Unlimited => "SR.TUnlimited".into(),
+        Term::Iter(l) => format!("(SR.TIter {})", l),
+        Term::Size(l) => format!("(SR.TSize {})", l),
+        Term::Combined(v) => format!("(SR.TCombined {})", coq_list(v, coq_term)),
+    }
+}
+/// `SR.world <inst>`; all naturals are printed in %nat scope by the header
+pub fn coq_world(w: &World, k: NumKind) -> String {
+    format!(
+        "(SR.mkW {} {} {} {} {} {} {} {} {} {} {} {})",
+        k.inst(),
+        w.n,
+        coq_list(&w.edges, |(a, b)| coq_pair(*a, *b)),
+        coq_list(&w.cost, |c| coq_num(*c, k)),
+        coq_list(&w.h, |c| coq_num(*c, k)),
+        coq_list(&w.turn, |(a, b, c)| format!("({}, {}, {})", a, b, coq_num(*c, k))),
+        coq_list(&w.forbid, |e| e.to_string()),
+        coq_list(&w.fturn, |(a, b)| coq_pair(*a, *b)),
+        coq_list(&w.ferr, |e| e.to_string()),
+        coq_list(&w.terr, |e| e.to_string()),
+        coq_term(&w.term),
+        coq_num(w.init, k)
+    )
+}
+pub fn coq_dir(d: Dir) -> &'static str {
+    match d {
+        Dir::Forward => "Search.Forward",
+        Dir::Reverse => "Search.Reverse",
+    }
+}
+pub fn coq_query(q: &Query, k: NumKind) -> String {
+    let alg = match q.alg {
+        Alg::Dijkstra => format!("(SR.ADijkstra {})", k.inst()),
+        Alg::AStar(w) => format!("(SR.AAStar {} {})", k.inst(), coq_opt(&w, |x| coq_num(*x, k))),
+    };
+    format!(
+        "(SR.mkQ {} {} {} {} {} {} {})",
+        k.inst(),
+        alg,
+        coq_dir(q.dir),
+        match q.orient {
+            Orient::Vertex => "SR.OVertex",
+            Orient::Edge => "SR.OEdge",
+        },
+        q.source,
+        coq_opt(&q.target, |t| t.to_string()),
+        coq_opt(&q.query_wf, |x| coq_num(*x, k))
+    )
+}
+/// the implementation's outcome as a Gallina term of type `SR.outcome <inst>` (input of the verified checkers)
+pub fn coq_outcome(o: &Outcome, k: NumKind) -> String {
+    format!(
+        "(SR.mkO {} {} {} {} {})",
+        k.inst(),
+        coq_string(&o.status),
+        o.iters,
+        coq_list(&o.trees, |t| coq_list(t, |b| format!("({}, {}, {}, {}, {}, {})", b.v, b.parent, b.edge, coq_num(b.access, k), coq_num(b.trav, k), coq_num(b.state, k)))),
+        coq_list(&o.routes, |r| coq_list(r, |h| format!("({}, {}, {}, {})", h.edge, coq_num(h.access, k), coq_num(h.trav, k), coq_num(h.state, k))))
+    )
+}
+/// Require lines of a case file that uses the terms above
+pub const HEADER: &str = "From Coq Require Import ZArith QArith List String Floats.\nFrom RC Require Import Base.Show Base.Num Model.Search Model.SearchRun.\nImport ListNotations.\nOpen Scope nat_scope.";
+
+/// generous loop bound for the model (pops <= 1 + successful relaxations)
+pub fn default_fuel(w: &World) -> usize {
+    200 + 20 * (w.n + w.edges.len())
+}
+/// model line: runs the model on the same world and query, prints SR.show_outcome (or TIE when the run popped
+/// among equal priorities, where the priority_queue crate's choice is unspecified)
+pub fn term_m(id: usize, w: &World, q: &Query, k: NumKind, detail: u8) -> String {
+    format!("SR.line_M {} {} {}%Z {} {} {}", k.inst(), default_fuel(w), id, coq_world(w, k), coq_query(q, k), detail)
+}
+/// checker line: the verified boolean checkers evaluated on the IMPLEMENTATION's outcome; prints the outcome back
+/// (same text as the I line) when they accept and REJECT(...) otherwise
+pub fn term_s(id: usize, w: &World, q: &Query, o: &Outcome, k: NumKind, detail: u8) -> String {
+    format!("SR.line_S {} {}%Z {} {} {} {}", k.inst(), id, coq_world(w, k), coq_query(q, k), coq_outcome(o, k), detail)
+}
+
+// ------------------------------------------------------------------------------------------- json
+
+fn fj(x: f64) -> Value {
+    json!(x.to_bits())
+}
+fn jf(v: &Value) -> f64 {
+    f64::from_bits(v.as_u64().unwrap())
+}
+fn term_to_json(t: &Term) -> Value {
+    match t {
+        Term::Unlimited => json!("unlimited"),
+        Term::Iter(l) => json!({ "iter": l }),
+        Term::Size(l) => json!({ "size": l }),
+        Term::Combined(v) => json!({ "combined": v.iter().map(term_to_json).collect::<Vec<_>>() }),
+    }
+}
+fn term_from_json(v: &Value) -> Term {
+    if v.is_string() {
+        Term::Unlimited
+    } else if let Some(l) = v.get("iter") {
+        Term::Iter(l.as_u64().unwrap())
+    } else if let Some(l) = v.get("size") {
+        Term::Size(l.as_u64().unwrap() as usize)
+    } else {
+        Term::Combined(v["combined"].as_array().unwrap().iter().map(term_from_json).collect())
+    }
+}
+/// floats are stored as their bit patterns (`*_bits`) so that a replay is exact; `cost_text` is for the reader
+pub fn world_to_json(w: &World) -> Value {
+    json!({
+        "n": w.n, "edges": w.edges,
+        "cost_bits": w.cost.iter().map(|c| fj(*c)).collect::<Vec<_>>(),
+        "cost_text": w.cost.iter().map(|c| format!("{}", c)).collect::<Vec<_>>().join(" "),
+        "h_bits": w.h.iter().map(|c| fj(*c)).collect::<Vec<_>>(),
+        "h_text": w.h.iter().map(|c| format!("{}", c)).collect::<Vec<_>>().join(" "),
+        "turn": w.turn.iter().map(|(a, b, c)| json!([a, b, fj(*c)])).collect::<Vec<_>>(),
+        "forbid": w.forbid, "fturn": w.fturn, "ferr": w.ferr, "terr": w.terr,
+        "term": term_to_json(&w.term), "init_bits": fj(w.init),
+    })
+}
+pub fn world_from_json(v: &Value) -> World {
+    let us = |x: &Value| -> Vec<usize> { x.as_array().map(|a| a.iter().map(|y| y.as_u64().unwrap() as usize).collect()).unwrap_or_default() };
+    let pairs = |x: &Value| -> Vec<(usize, usize)> { x.as_array().map(|a| a.iter().map(|y| (y[0].as_u64().unwrap() as usize, y[1].as_u64().unwrap() as usize)).collect()).unwrap_or_default() };
+    let fs = |x: &Value| -> Vec<f64> { x.as_array().map(|a| a.iter().map(jf).collect()).unwrap_or_default() };
+    World {
+        n: v["n"].as_u64().unwrap() as usize,
+        edges: pairs(&v["edges"]),
+        cost: fs(&v["cost_bits"]),
+        h: fs(&v["h_bits"]),
+        turn: v["turn"].as_array().map(|a| a.iter().map(|y| (y[0].as_u64().unwrap() as usize, y[1].as_u64().unwrap() as usize, jf(&y[2]))).collect()).unwrap_or_default(),
+        forbid: us(&v["forbid"]),
+        fturn: pairs(&v["fturn"]),
+        ferr: us(&v["ferr"]),
+        terr: us(&v["terr"]),
+        term: term_from_json(&v["term"]),
+        init: v.get("init_bits").map(jf).unwrap_or(0.0),
+    }
+}
+pub fn query_to_json(q: &Query) -> Value {
+    json!({
+        "alg": match q.alg { Alg::Dijkstra => json!("dijkstra"), Alg::AStar(None) => json!({"astar": null}), Alg::AStar(Some(w)) => json!({"astar": fj(w), "wf_text": w}) },
+        "dir": match q.dir { Dir::Forward => "forward", Dir::Reverse => "reverse" },
+        "orient": match q.orient { Orient::Vertex => "vertex", Orient::Edge => "edge" },
+        "source": q.source, "target": q.target,
+        "query_wf": q.query_wf.map(fj),
+    })
+}
+pub fn query_from_json(v: &Value) -> Query {
+    let alg = if v["alg"].is_string() {
+        Alg::Dijkstra
+    } else if v["alg"]["astar"].is_null() {
+        Alg::AStar(None)
+    } else {
+        Alg::AStar(Some(jf(&v["alg"]["astar"])))
+    };
+    Query {
+        alg,
+        dir: if v["dir"] == "reverse" { Dir::Reverse } else { Dir::Forward },
+        orient: if v["orient"] == "edge" { Orient::Edge } else { Orient::Vertex },
+        source: v["source"].as_u64().unwrap() as usize,
+        target: v["target"].as_u64().map(|x| x as usize),
+        query_wf: if v["query_wf"].is_null() { None } else { Some(jf(&v["query_wf"])) },
+    }
+}
+
+// --------------------------------------------------------------------------------------- generate
+
+#[derive(Clone, Copy, Debug, PartialEq, Eq)]
+pub enum CostFamily {
+    /// random dyadics k/64, 1 <= k < 2^20: ties are improbable (and detected by the model: TIE)
+    TieFree,
+    /// integers 1..3: many equal labels and equal priorities
+    TieRich,
+}
+
+/// DESIGN.md Appendix B: n in 3..40 (small sizes more likely), out-degree 0..8 with at least one vertex above 5,
+/// forced parallel edge / self loop / isolated vertex / unreachable part each with probability 1/4.
+/// Returns (n, edges, flags) where flags names the forced features that were applied.
+pub fn gen_graph(rng: &mut Rng) -> (usize, Vec<(usize, usize)>, Vec<&'static str>) {
+    let n = match rng.below(10) {
+        0..=4 => rng.range(3, 8),
+        5..=7 => rng.range(9, 16),
+        8 => rng.range(17, 28),
+        _ => rng.range(29, 40),
+    } as usize;
+    let mut flags = vec![];
+    let isolated = if rng.chance(1, 4) { Some(rng.below(n as u64) as usize) } else { None };
+    // unreachable part: vertices >= cut have no edge from the lower part
+    let cut = if rng.chance(1, 4) && n >= 4 { Some(rng.range(2, n as i64 - 1) as usize) } else { None };
+    let dense = rng.below(n as u64) as usize; // the vertex whose out-degree is forced above 5
+    let maxdeg = *rng.pick(&[1u64, 2, 2, 3, 3, 4, 8]);
+    let mut per_vertex: Vec<Vec<usize>> = vec![vec![]; n];
+    for v in 0..n {
+        let deg = if v == dense { rng.range(6, 8) as u64 } else { rng.below(maxdeg + 1) };
+        for _ in 0..deg {
+            per_vertex[v].push(rng.below(n as u64) as usize);
+        }
+    }
+    let mut edges: Vec<(usize, usize)> = vec![];
+    for v in 0..n {
+        for &d in &per_vertex[v] {
+            edges.push((v, d));
+        }
+    }
+    if rng.chance(1, 4) && !edges.is_empty() {
+        let e = *rng.pick(&edges);
+        edges.push(e);
+        flags.push("parallel");
+    }
+    if rng.chance(1, 4) {
+        let v = rng.below(n as u64) as usize;
+        edges.push((v, v));
+        flags.push("selfloop");
+    }
+    rng.shuffle(&mut edges);
+    if let Some(c) = cut {
+        edges.retain(|(s, d)| !(*s < c && *d >= c));
+        flags.push("unreachable_part");
+    }
+    if let Some(i) = isolated {
+        edges.retain(|(s, d)| *s != i && *d != i);
+        flags.push("isolated");
+    }
+    (n, edges, flags)
+}
+
+pub fn gen_costs(rng: &mut Rng, m: usize, fam: CostFamily) -> Vec<f64> {
+    (0..m)
+        .map(|_| match fam {
+            CostFamily::TieFree => rng.range(1, (1 << 20) - 1) as f64 / 64.0,
+            CostFamily::TieRich => rng.range(1, 3) as f64,
+        })
+        .collect()
+}
+
+/// random frontier tables: forbidden edges, forbidden turns (on adjacent pairs), rarely a failing edge
+pub fn gen_frontier(rng: &mut Rng, w: &mut World) {
+    let m = w.edges.len();
+    if m == 0 {
+        return;
+    }
+    match rng.below(4) {
+        0 => {}
+        1 => {
+            for e in 0..m {
+                if rng.chance(1, 8) {
+                    w.forbid.push(e);
+                }
+            }
+        }
+        2 => {
+            for e in 0..m {
+                if rng.chance(1, 3) {
+                    w.forbid.push(e);
+                }
+            }
+        }
+        _ => {}
+    }
+    if rng.chance(1, 2) {
+        // forbidden turns among adjacent pairs (a.dst == b.src), 0..30 %
+        let pct = rng.below(31);
+        for a in 0..m {
+            for b in 0..m {
+                if w.edges[a].1 == w.edges[b].0 && rng.below(100) < pct {
+                    w.fturn.push((a, b));
+                    // the reverse search presents the pair the other way round (previous edge = later edge)
+                    if rng.chance(1, 2) {
+                        w.fturn.push((b, a));
+                    }
+                }
+            }
+        }
+        w.fturn.sort();
+        w.fturn.dedup();
+        if w.fturn.len() > 60 {
+            w.fturn.truncate(60);
+        }
+    }
+}
+
+/// exact reference distances TO `target` in the search direction (Forward: along edges; Reverse: against them),
+/// over the cost table only (no frontier, no turn costs); Bellman-Ford, exact for dyadic tables
+pub fn true_dist(w: &World, dir: Dir, target: usize) -> Vec<Option<f64>> {
+    let mut d: Vec<Option<f64>> = vec![None; w.n];
+    if target < w.n {
+        d[target] = Some(0.0);
+    }
+    for _ in 0..w.n {
+        let mut changed = false;
+        for (i, (s, t)) in w.edges.iter().enumerate() {
+            // forward search moves s -> t, so distance-to-target propagates from t to s; reverse: from s to t
+            let (from, to) = match dir {
+                Dir::Forward => (*t, *s),
+                Dir::Reverse => (*s, *t),
+            };
+            if let Some(df) = d[from] {
+                let cand = df + w.cost[i];
+                if d[to].map_or(true, |x| cand < x) {
+                    d[to] = Some(cand);
+                    changed = true;
+                }
+            }
+        }
+        if !changed {
+            break;
+        }
+    }
+    d
+}
+
+/// vertices reachable from `start` in the search direction (frontier tables ignored); `start` itself included
+pub fn reachable(w: &World, dir: Dir, start: usize) -> Vec<bool> {
+    let mut seen = vec![false; w.n];
+    if start >= w.n {
+        return seen;
+    }
+    seen[start] = true;
+    let mut stack = vec![start];
+    while let Some(v) = stack.pop() {
+        for (s, t) in &w.edges {
+            let (from, to) = if dir == Dir::Forward { (*s, *t) } else { (*t, *s) };
+            if from == v && !seen[to] {
+                seen[to] = true;
+                stack.push(to);
+            }
+        }
+    }
+    seen
+}
+
+#[derive(Clone, Copy, Debug, PartialEq, Eq)]
+pub enum HKind {
+    Zero,
+    /// h = true remaining distance (consistent)
+    Exact,
+    /// h = half the true remaining distance, rounded down to 1/64 (consistent up to rounding, admissible)
+    Half,
+    /// h = random fraction of the true remaining distance per vertex (admissible, usually inconsistent)
+    Admissible,
+    /// random values unrelated to distances (inadmissible)
+    Wild,
+}
+fn floor64(x: f64) -> f64 {
+    (x * 64.0).floor() / 64.0
+}
+pub fn gen_heuristic(rng: &mut Rng, w: &mut World, dir: Dir, target: Option<usize>, kind: HKind) {
+    let d = match target {
+        Some(t) if t < w.n => true_dist(w, dir, t),
+        _ => vec![None; w.n],
+    };
+    w.h = (0..w.n)
+        .map(|v| match kind {
+            HKind::Zero => 0.0,
+            HKind::Exact => d[v].unwrap_or(0.0),
+            HKind::Half => floor64(d[v].unwrap_or(0.0) / 2.0),
+            HKind::Admissible => floor64(d[v].unwrap_or(0.0) * (rng.below(65) as f64 / 64.0)),
+            HKind::Wild => match rng.below(4) {
+                0 => 0.0,
+                1 => rng.range(0, 6) as f64,
+                _ => rng.range(0, (1 << 22) - 1) as f64 / 64.0,
+            },
+        })
+        .collect();
+}
+
+/// a random world over a random graph; heuristic tables are added per query with `gen_heuristic`
+pub fn gen_world(rng: &mut Rng, fam: CostFamily) -> (World, Vec<&'static str>) {
+    let (n, edges, flags) = gen_graph(rng);
+    let cost = gen_costs(rng, edges.len(), fam);
+    let mut w = World::new(n, edges, cost);
+    if rng.chance(1, 3) {
+        gen_frontier(rng, &mut w);
+    }
+    (w, flags)
+}
+
+pub const WEIGHT_FACTORS: [f64; 4] = [0.0, 0.5, 1.0, 3.0];
+
+/// random query on a world: orientation, direction, algorithm, endpoints (mostly valid, distinct), heuristic kind
+pub fn gen_query(rng: &mut Rng, w: &mut World) -> (Query, HKind) {
+    let orient = if rng.chance(1, 3) && !w.edges.is_empty() { Orient::Edge } else { Orient::Vertex };
+    let dir = if rng.chance(1, 2) { Dir::Forward } else { Dir::Reverse };
+    let alg = match rng.below(6) {
+        0 => Alg::Dijkstra,
+        1 => Alg::AStar(None),
+        _ => Alg::AStar(Some(*rng.pick(&WEIGHT_FACTORS))),
+    };
+    let dom = match orient {
+        Orient::Vertex => w.n,
+        Orient::Edge => w.edges.len(),
+    };
+    let source = rng.below(dom as u64) as usize;
+    let target = if rng.chance(1, 6) {
+        None
+    } else {
+        // three times out of four a destination that is connected to the origin (frontier tables ignored)
+        let start = match orient {
+            Orient::Vertex => source,
+            Orient::Edge => match dir {
+                Dir::Forward => w.edges[source].1,
+                Dir::Reverse => w.edges[source].0,
+            },
+        };
+        let reach = reachable(w, dir, start);
+        let cands: Vec<usize> = match orient {
+            Orient::Vertex => (0..w.n).filter(|v| reach[*v] && *v != source).collect(),
+            Orient::Edge => (0..w.edges.len())
+                .filter(|e| *e != source && reach[if dir == Dir::Forward { w.edges[*e].0 } else { w.edges[*e].1 }])
+                .collect(),
+        };
+        if !cands.is_empty() && rng.chance(3, 4) {
+            Some(*rng.pick(&cands))
+        } else {
+            let mut t = rng.below(dom as u64) as usize;
+            if t == source && rng.chance(9, 10) {
+                t = (t + 1) % dom;
+            }
+            Some(t)
+        }
+    };
+    let query_wf = if rng.chance(1, 10) { Some(*rng.pick(&WEIGHT_FACTORS)) } else { None };
+    // the heuristic is about the vertex pair the vertex-oriented search is started with
+    let (tv, hdir) = match (orient, target) {
+        (Orient::Vertex, t) => (t, dir),
+        (Orient::Edge, Some(te)) => (Some(w.edges[te].0), dir),
+        (Orient::Edge, None) => (None, dir),
+    };
+    let kind = *rng.pick(&[HKind::Zero, HKind::Exact, HKind::Half, HKind::Admissible, HKind::Admissible, HKind::Wild, HKind::Wild]);
+    gen_heuristic(rng, w, hdir, tv, kind);
+    (Query { alg, dir, orient, source, target, query_wf }, kind)
+}
+
+fn vq(alg: Alg, dir: Dir, s: usize, t: Option<usize>) -> Query {
+    Query { alg, dir, orient: Orient::Vertex, source: s, target: t, query_wf: None }
+}
+fn eq(alg: Alg, dir: Dir, s: usize, t: Option<usize>) -> Query {
+    Query { alg, dir, orient: Orient::Edge, source: s, target: t, query_wf: None }
+}
+
+/// deterministic boundary families of DESIGN.md Appendix B for C01/C05 (every run includes them first)
+pub fn boundary_cases() -> Vec<(String, World, Query)> {
+    let mut out: Vec<(String, World, Query)> = vec![];
+    let algs = [Alg::Dijkstra, Alg::AStar(None), Alg::AStar(Some(3.0))];
+    let dirs = [Dir::Forward, Dir::Reverse];
+    let unit = |n: usize, es: &[(usize, usize)], cs: &[f64]| World::new(n, es.to_vec(), cs.to_vec());
+    for alg in algs {
+        for dir in dirs {
+            // the edge-oriented shapes are written for a forward search; a reverse search gets the mirrored network
+            let eo = |n: usize, es: &[(usize, usize)], cs: &[f64]| {
+                let es2: Vec<(usize, usize)> = es.iter().map(|(a, b)| if dir == Dir::Reverse { (*b, *a) } else { (*a, *b) }).collect();
+                World::new(n, es2, cs.to_vec())
+            };
+            // origin with no incident edge in the search direction
+            out.push(("origin_dead_end".into(), unit(3, &[(1, 2), (2, 1)], &[1.0, 2.0]), vq(alg, dir, 0, Some(2))));
+            out.push(("origin_dead_end_no_target".into(), unit(3, &[(1, 2)], &[1.0]), vq(alg, dir, 0, None)));
+            // destination isolated
+            out.push(("destination_isolated".into(), unit(4, &[(0, 1), (1, 0), (1, 2), (2, 1)], &[1.0, 1.0, 2.5, 2.5]), vq(alg, dir, 0, Some(3))));
+            // destination a direct neighbour (both directions of a two-way street)
+            out.push(("destination_neighbour".into(), unit(3, &[(0, 1), (1, 0), (1, 2), (2, 1)], &[1.5, 1.25, 2.0, 2.75]), vq(alg, dir, 0, Some(1))));
+            // self loops at origin and at destination
+            out.push(("selfloop_origin".into(), unit(3, &[(0, 0), (0, 1), (1, 0), (1, 2), (2, 1)], &[0.5, 1.0, 1.0, 2.0, 2.0]), vq(alg, dir, 0, Some(2))));
+            out.push(("selfloop_destination".into(), unit(3, &[(0, 1), (1, 0), (1, 2), (2, 1), (2, 2)], &[1.0, 1.0, 2.0, 2.0, 0.5]), vq(alg, dir, 0, Some(2))));
+            // parallel edges of different cost, cheaper one later / earlier
+            out.push(("parallel_cheaper_later".into(), unit(3, &[(0, 1), (0, 1), (1, 0), (1, 0), (1, 2), (2, 1)], &[3.0, 1.0, 3.0, 1.0, 1.0, 1.0]), vq(alg, dir, 0, Some(2))));
+            out.push(("parallel_cheaper_first".into(), unit(3, &[(0, 1), (0, 1), (1, 0), (1, 0), (1, 2), (2, 1)], &[1.0, 3.0, 1.0, 3.0, 1.0, 1.0]), vq(alg, dir, 0, Some(2))));
+            // asymmetric graph: a one-way ring, the reverse search must follow it backwards
+            out.push(("one_way_ring".into(), unit(4, &[(0, 1), (1, 2), (2, 3), (3, 0)], &[1.0, 2.0, 4.0, 8.0]), vq(alg, dir, 0, Some(3))));
+            out.push(("one_way_ring_no_target".into(), unit(4, &[(0, 1), (1, 2), (2, 3), (3, 0)], &[1.0, 2.0, 4.0, 8.0]), vq(alg, dir, 1, None)));
+            // decrease-key: the better label of 2 arrives after a worse one is queued
+            out.push(("decrease_key".into(), unit(4, &[(0, 2), (0, 1), (1, 2), (2, 3), (2, 0), (1, 0), (2, 1), (3, 2)], &[10.0, 1.0, 2.0, 1.0, 10.0, 1.0, 2.0, 1.0]), vq(alg, dir, 0, Some(3))));
+            // source == target, unknown ids
+            out.push(("source_is_target".into(), unit(2, &[(0, 1), (1, 0)], &[1.0, 1.0]), vq(alg, dir, 1, Some(1))));
+            out.push(("unknown_source_vertex".into(), unit(2, &[(0, 1), (1, 0)], &[1.0, 1.0]), vq(alg, dir, 7, Some(1))));
+            out.push(("unknown_source_vertex_no_target".into(), unit(2, &[(0, 1), (1, 0)], &[1.0, 1.0]), vq(alg, dir, 7, None)));
+            out.push(("unknown_target_vertex".into(), unit(2, &[(0, 1), (1, 0)], &[1.0, 1.0]), vq(alg, dir, 0, Some(9))));
+            // vertex of degree 6 (past the compact map's small-size variants): all neighbours found, in edge order
+            out.push(("degree_six".into(), unit(8, &[(0, 1), (0, 2), (0, 3), (0, 4), (0, 5), (0, 6), (6, 7), (1, 0), (2, 0), (3, 0), (4, 0), (5, 0), (6, 0), (7, 6)], &[6.0, 5.0, 4.0, 3.0, 2.0, 1.0, 1.0, 6.0, 5.0, 4.0, 3.0, 2.0, 1.0, 1.0]), vq(alg, dir, 0, None)));
+            // ---- edge-oriented (the D-EO shapes and their neighbours) ----
+            // (i) destination edge's end vertex already labelled through a cheaper edge
+            out.push(("eo_dest_end_labelled".into(), eo(4, &[(0, 1), (1, 2), (1, 3), (2, 3), (3, 2)], &[1.0, 5.0, 1.0, 1.0, 1.0]), eq(alg, dir, 0, Some(3))));
+            // (ii) destination edge ends at the origin edge's start (3-cycle)
+            out.push(("eo_dest_ends_at_origin_start".into(), eo(3, &[(0, 1), (1, 2), (2, 0)], &[1.0, 1.0, 1.0]), eq(alg, dir, 0, Some(2))));
+            // (iii) two-way street u-turn, with and without destination
+            out.push(("eo_uturn".into(), eo(4, &[(0, 1), (1, 0), (1, 2), (0, 3)], &[1.0, 1.0, 1.0, 1.0]), eq(alg, dir, 0, Some(3))));
+            out.push(("eo_uturn_no_destination".into(), eo(4, &[(0, 1), (1, 0), (1, 2), (0, 3)], &[1.0, 1.0, 1.0, 1.0]), eq(alg, dir, 0, None)));
+            // no destination, origin start not reachable: the origin edge is grafted as the root branch
+            out.push(("eo_graft_root".into(), eo(4, &[(0, 1), (1, 2), (2, 3)], &[1.0, 1.0, 1.0]), eq(alg, dir, 0, None)));
+            // destination edge adjacent to the origin edge
+            out.push(("eo_adjacent".into(), eo(3, &[(0, 1), (1, 2)], &[1.0, 2.0]), eq(alg, dir, 0, Some(1))));
+            // destination edge = the reverse of the origin edge (adjacent, ends at the origin edge's start)
+            out.push(("eo_dest_is_reverse_of_origin".into(), eo(2, &[(0, 1), (1, 0)], &[1.0, 2.0]), eq(alg, dir, 0, Some(1))));
+            // origin edge a self loop, with an adjacent / distant / no destination
+            out.push(("eo_origin_selfloop_adjacent".into(), eo(2, &[(0, 0), (0, 1)], &[1.0, 2.0]), eq(alg, dir, 0, Some(1))));
+            out.push(("eo_origin_selfloop".into(), eo(3, &[(0, 0), (0, 1), (1, 2)], &[1.0, 2.0, 3.0]), eq(alg, dir, 0, Some(2))));
+            out.push(("eo_origin_selfloop_no_destination".into(), eo(3, &[(0, 0), (0, 1), (1, 2)], &[1.0, 2.0, 3.0]), eq(alg, dir, 0, None)));
+            // destination edge a self loop
+            out.push(("eo_dest_selfloop".into(), eo(3, &[(0, 1), (1, 2), (2, 2)], &[1.0, 2.0, 3.0]), eq(alg, dir, 0, Some(2))));
+            out.push(("eo_dest_selfloop_adjacent".into(), eo(2, &[(0, 1), (1, 1)], &[1.0, 2.0]), eq(alg, dir, 0, Some(1))));
+            // same edge, parallel twin, unreachable destination edge, unknown edges
+            out.push(("eo_same_edge".into(), eo(2, &[(0, 1), (1, 0)], &[1.0, 1.0]), eq(alg, dir, 0, Some(0))));
+            out.push(("eo_parallel_twin".into(), eo(3, &[(0, 1), (0, 1), (1, 2), (2, 0)], &[1.0, 1.0, 1.0, 1.0]), eq(alg, dir, 0, Some(1))));
+            out.push(("eo_unreachable".into(), eo(4, &[(0, 1), (2, 3)], &[1.0, 1.0]), eq(alg, dir, 0, Some(1))));
+            out.push(("eo_unknown_origin_edge".into(), eo(2, &[(0, 1)], &[1.0]), eq(alg, dir, 5, Some(0))));
+            out.push(("eo_unknown_destination_edge".into(), eo(2, &[(0, 1)], &[1.0]), eq(alg, dir, 0, Some(5))));
+        }
+    }
+    // frontier / traversal / termination outcomes
+    for dir in dirs {
+        let mut w = unit(4, &[(0, 1), (1, 2), (2, 3), (0, 3), (3, 2), (2, 1), (1, 0), (3, 0)], &[1.0, 1.0, 1.0, 9.0, 1.0, 1.0, 1.0, 9.0]);
+        w.forbid = vec![1, 5];
+        out.push(("frontier_forbids_short_path".into(), w.clone(), vq(Alg::Dijkstra, dir, 0, Some(3))));
+        let mut w2 = w.clone();
+        w2.forbid = vec![];
+        w2.fturn = vec![(0, 1), (4, 5), (1, 0), (5, 4)];
+        out.push(("frontier_forbids_turn".into(), w2, vq(Alg::AStar(Some(1.0)), dir, 0, Some(3))));
+        let mut w3 = w.clone();
+        w3.forbid = vec![];
+        w3.ferr = vec![2, 4];
+        out.push(("frontier_error".into(), w3, vq(Alg::Dijkstra, dir, 0, Some(3))));
+        let mut w4 = w.clone();
+        w4.forbid = vec![];
+        w4.terr = vec![1, 5];
+        out.push(("traversal_error".into(), w4, vq(Alg::Dijkstra, dir, 0, Some(3))));
+        for lim in [0u64, 1, 2, 3, 4] {
+            let mut w5 = w.clone();
+            w5.forbid = vec![];
+            w5.term = Term::Iter(lim);
+            out.push((format!("iteration_limit_{}", lim), w5, vq(Alg::Dijkstra, dir, 0, Some(2))));
+            let mut w6 = w.clone();
+            w6.forbid = vec![];
+            w6.term = Term::Combined(vec![Term::Size(lim as usize), Term::Iter(100)]);
+            out.push((format!("size_limit_{}", lim), w6, vq(Alg::Dijkstra, dir, 0, None)));
+        }
+        // turn costs (access model) and a non-zero initial state
+        let mut w7 = w.clone();
+        w7.forbid = vec![];
+        w7.turn = vec![(0, 1, 4.0), (1, 2, 0.5), (4, 5, 4.0), (5, 6, 0.5), (1, 0, 4.0), (2, 1, 0.5)];
+        w7.init = 100.0;
+        out.push(("turn_costs".into(), w7, vq(Alg::Dijkstra, dir, 0, Some(3))));
+        // the access share exceeds the edge total by more than 2^51: access + (total - access) rounds to 0 and
+        // EdgeTraversal::total_cost applies the 1e-10 floor to the sum (/repo 693929c)
+        let mut w9 = unit(3, &[(0, 1), (1, 2), (2, 1), (1, 0)], &[1.0, -4194304.0, -4194304.0, 1.0]);
+        w9.turn = vec![(0, 1, 4194304.0), (2, 3, 4194304.0)];
+        out.push(("floor_on_sum".into(), w9, vq(Alg::Dijkstra, dir, if dir == Dir::Forward { 0 } else { 2 }, Some(if dir == Dir::Forward { 2 } else { 0 }))));
+        // inadmissible heuristic steering the search onto the expensive edge; weight factor from the query
+        let mut w8 = w.clone();
+        w8.forbid = vec![];
+        w8.h = vec![0.0, 50.0, 50.0, 0.0];
+        out.push(("inadmissible_heuristic".into(), w8.clone(), vq(Alg::AStar(None), dir, 0, Some(3))));
+        let mut q8 = vq(Alg::Dijkstra, dir, 0, Some(3));
+        q8.query_wf = Some(3.0);
+        out.push(("dijkstra_with_query_weight_factor".into(), w8, q8));
+    }
+    out
+}
+
+/// absorption family (DESIGN.md C01 'Catches'): a first edge of cost 2^60 and then small cycles of cost-1 edges, so
+/// that label + cost == label in binary64.  The strict `<` of the relaxation is what stops the search here.
+pub fn absorption_cases() -> Vec<(String, World, Query)> {
+    let big = (1u64 << 60) as f64;
+    let mut out = vec![];
+    for alg in [Alg::Dijkstra, Alg::AStar(Some(1.0))] {
+        // 0 -big-> 1 <-> 2 ; 3 unreachable
+        let w = World::new(4, vec![(0, 1), (1, 2), (2, 1)], vec![big, 1.0, 1.0]);
+        out.push(("absorb_two_cycle_no_target".into(), w.clone(), vq(alg, Dir::Forward, 0, None)));
+        out.push(("absorb_two_cycle_unreachable_target".into(), w.clone(), vq(alg, Dir::Forward, 0, Some(3))));
+        // reverse direction: 1 <-> 2, 1 -big-> 0, searched backwards from 0
+        let wr = World::new(4, vec![(1, 0), (2, 1), (1, 2)], vec![big, 1.0, 1.0]);
+        out.push(("absorb_two_cycle_reverse".into(), wr, vq(alg, Dir::Reverse, 0, None)));
+        // a 3-cycle and a self loop behind the big edge
+        let w3 = World::new(5, vec![(0, 1), (1, 2), (2, 3), (3, 1), (2, 2)], vec![big, 1.0, 1.0, 1.0, 1.0]);
+        out.push(("absorb_three_cycle".into(), w3.clone(), vq(alg, Dir::Forward, 0, Some(4))));
+        // edge-oriented: the origin edge is free, the big edge follows
+        let we = World::new(5, vec![(4, 0), (0, 1), (1, 2), (2, 1), (3, 3)], vec![1.0, big, 1.0, 1.0, 1.0]);
+        out.push(("absorb_edge_oriented".into(), we, eq(alg, Dir::Forward, 0, Some(4))));
+    }
+    out
+}
